@@ -24,7 +24,21 @@ func operandCallees(v ssa.Value, depth int, out map[string]bool) {
 		operandCallees(x.Tuple, depth+1, out)
 	case *ssa.Call:
 		if f := x.Call.StaticCallee(); f != nil {
-			out[f.Name()] = true
+			// a helper that receives an already parsed expression and returns it (with suffixes applied, wrapped, …)
+			// does not choose the operand's precedence level: the level is that of the expression passed in
+			through := false
+			for i, a := range x.Call.Args {
+				if i == 0 && f.Signature.Recv() != nil {
+					continue
+				}
+				if strings.HasSuffix(a.Type().String(), "ast.Expression") {
+					operandCallees(a, depth+1, out)
+					through = true
+				}
+			}
+			if !through {
+				out[f.Name()] = true
+			}
 		} else {
 			out["<dynamic>"] = true
 		}
@@ -133,7 +147,7 @@ func runC03(c *Ctx) {
 			}
 		}
 	}
-	r.Floor("operand-symmetry", len(sites), 8, "BinaryExpression construction sites")
+	r.Floor("operand-symmetry", len(sites), 5, "BinaryExpression construction sites")
 	// operator classes (the only frozen datum: a fact of SQL)
 	classes := []struct {
 		name string
